@@ -306,6 +306,23 @@ Definition res_eqb (a b : res) : bool :=
   | _, _ => false
   end.
 
+(* ---- round 5: the loaded dictionary itself, cell by cell ----
+   table_eqb: the same keys, labels and bits in the same (insertion) order -- M against the real dictionary.
+   spec_table_ok (S, on the raw rows, no M): what the statement needs of ANY dictionary built from the file, modulo
+   the spelling and the order it is stored in: every key is a name the file defines and holds exactly the (LABEL, bit)
+   definitions of the group it stands for (compared sorted by bit), every group and alias name of the file is a key,
+   and no two keys coincide modulo case. *)
+Definition table_eqb (a b : table) : bool :=
+  list_eqb (fun x y => str_eqb (fst x) (fst y) && list_eqb fb_eqb (snd x) (snd y)) a b.
+Definition up_group (d : group) : group := map (fun lb => (upper (fst lb), snd lb)) d.
+Definition group_same (a b : group) : bool := list_eqb fb_eqb (isort (up_group a)) (isort b).
+Definition has_ci (name : str) (t : table) : bool := existsb (fun kv => str_eqb (upper (fst kv)) name) t.
+Definition spec_table_ok (rows : list row) (aliases : list arow) (t : table) : bool :=
+  forallb (fun kv => known rows aliases (fst kv) && group_same (snd kv) (defs rows aliases (fst kv))) t
+  && forallb (fun r => has_ci (rflag r) t) rows
+  && forallb (fun a => has_ci (upper (snd a)) t) aliases
+  && nodupb str_eqb (map (fun kv => upper (fst kv)) t).
+
 (* names are compared modulo case: the property fixes the labels, not their spelling *)
 Definition res_upper (r : res) : res := match r with RNames l => RNames (map upper l) | _ => r end.
 
@@ -362,6 +379,7 @@ Definition cName (g v : Z) (cc : bool) (r : res) : call * res := (KName (sz g) v
 Definition cExist (g : Z) (ls : list Z) (fe we : bool) (r : res) : call * res := (KExist (sz g) (szs ls) fe we, r).
 Definition cVNV (g v : Z) (r : res) : call * res := (KVNV (sz g) v, r).
 Definition cNVN (g : Z) (ls : list Z) (r : res) : call * res := (KNVN (sz g) (szs ls), r).
+Definition TG (g : Z) (e : list (Z * Z)) : str * group := (sz g, map (fun lb => (sz (fst lb), snd lb)) e).
 
 (* per file: verdict of the load itself, then one verdict per call
    (0 = agrees with M and satisfies S; +1 = M differs from impl; +2 = impl contradicts S) *)
@@ -394,6 +412,26 @@ Definition run_cases (cs : list case) : list Z := map run_case cs.
    (round 2): what translate/c07.py reads off the ast of set_maskbits / sdss_flagval / sdss_flagname /
    sdss_flagexist.  std_cfg is what the theorems are about; C07/Code.v instantiates cfg from Generated/Maskbits.v and
    Props.v carries the obligations that the source has the standard values.  *)
+(* round 5: the return statement chain of sdss_flagexist.  A result is a sequence of components l / f / which
+   (tuple order); ret4 = the sequence for (fe, we) = (true, true), (true, false), (false, true), (false, false).
+   Generated/Maskbits.v carries the if / elif chain of the source as a Gallina function (exist_ret_code). *)
+Inductive efield := EL | EF | EWhich.
+Definition ret4 := (list efield * list efield * list efield * list efield)%type.
+Definition exist_std (fe we : bool) : list efield := EL :: (if fe then [EF] else []) ++ (if we then [EWhich] else []).
+Definition ret4_of (f : bool -> bool -> list efield) : ret4 := (f true true, f true false, f false true, f false false).
+Definition ret4_get (r : ret4) (fe we : bool) : list efield :=
+  match r with (a, b, c, d) => if fe then (if we then a else b) else (if we then c else d) end.
+Definition std_ret4 : ret4 := ret4_of exist_std.
+Fixpoint assemble (l f : bool) (which : list bool) (fs : list efield) : list bool :=
+  match fs with
+  | [] => []
+  | EL :: t => l :: assemble l f which t
+  | EF :: t => f :: assemble l f which t
+  | EWhich :: t => which ++ assemble l f which t
+  end.
+(* the python structure of the result: a bare bool when there is one scalar component, else a tuple *)
+Definition efield_of (n : nat) : efield := match n with O => EL | S O => EF | _ => EWhich end.
+
 Record cfg := mkcfg {
   c_load_upper : bool;     (* set_maskbits upper-cases the names it stores *)
   c_scan_bits : nat;       (* range(N) of the bit scan in sdss_flagname *)
@@ -402,9 +440,10 @@ Record cfg := mkcfg {
   c_first : bool;          (* f[0][0]: first label carrying the bit (false: f[-1][0], the last) *)
   c_upper_group : bool;    (* flagname.upper() in the three query functions *)
   c_upper_labels : bool;   (* b.upper() on the labels in sdss_flagval / sdss_flagexist *)
-  c_exist_all : bool       (* l = sum(which) == len(which)  (false: any(which)) *)
+  c_exist_all : bool;      (* l = sum(which) == len(which)  (false: any(which)) *)
+  c_exist_ret : ret4       (* round 5: what sdss_flagexist returns for the four (flagexist, whichexist) combinations *)
 }.
-Definition std_cfg : cfg := mkcfg true 64 true true true true true true.
+Definition std_cfg : cfg := mkcfg true 64 true true true true true true std_ret4.
 
 Definition swrap64 (z : Z) : Z := (z + 2 ^ 63) mod two64 - 2 ^ 63.
 Definition wrap_c (c : cfg) (z : Z) : Z := if c_acc_u64 c then z mod two64 else swrap64 z.
@@ -460,7 +499,7 @@ Definition flagexist_c (c : cfg) (m : table) (g : str) (labels : list str) (fe w
                | None => map (fun _ => false) ls
                end in
   let l := f && (if c_exist_all c then forallb (fun x => x) which else existsb (fun x => x) which) in
-  RBools (l :: (if fe then [f] else []) ++ (if we then which else [])).
+  RBools (assemble l f which (ret4_get (c_exist_ret c) fe we)).
 
 Definition load_c (c : cfg) : list row -> list arow -> option table := load (c_load_upper c).
 
